@@ -1,3 +1,4 @@
+import threading
 from enum import Enum
 from typing import (
     Any,
@@ -121,6 +122,11 @@ def recursion_cache(checker_cls: Type[RecursiveChecker]) -> Dict[RecursionKey, b
     return {}
 
 
+# The recursion analysis writes its (partial) results in a cache shared by all checkers:
+# two analyses must not be interleaved, or one could overwrite the other's results
+_recursion_lock = threading.RLock()
+
+
 @cache
 def is_recursive(
     tp: AnyType,
@@ -128,10 +134,11 @@ def is_recursive(
     default_conversion: DefaultConversion,
     checker_cls: Type[RecursiveChecker],
 ) -> bool:
-    cache, rec_key = recursion_cache(checker_cls), (tp, conversion)
-    if rec_key not in cache:
-        checker_cls(default_conversion).visit_with_conv(tp, conversion)
-    return cache[rec_key]
+    with _recursion_lock:
+        cache, rec_key = recursion_cache(checker_cls), (tp, conversion)
+        if rec_key not in cache:
+            checker_cls(default_conversion).visit_with_conv(tp, conversion)
+        return cache[rec_key]
 
 
 class RecursiveConversionsVisitor(ConversionsVisitor[Conv, Result]):
